@@ -199,6 +199,14 @@ def tarjan_lowlink(rep: Report, prog: Program, vf, visit_name: str, g0: str, vis
             return vcfg.nodes[n].kind == 'stmt' and isinstance(st, ast.Assign) and isinstance(st.targets[0], ast.Subscript) and norm(st.targets[0].slice) == v \
                 and isinstance(st.value, ast.Call) and callee_last(st.value) == 'min' and norm(st.targets[0]) in [norm(a) for a in st.value.args]
         ups = [n for n in vcfg.loop_body[hdr] if lowers(n)]
+        if not ups:
+            proxies = [vcfg.nodes[n].stmt for n in vcfg.loop_body[hdr] if vcfg.nodes[n].kind == 'stmt' and isinstance(vcfg.nodes[n].stmt, ast.Assign)
+                       and isinstance(vcfg.nodes[n].stmt.targets[0], ast.Name) and isinstance(vcfg.nodes[n].stmt.value, ast.Call) and callee_last(vcfg.nodes[n].stmt.value) == 'min'
+                       and vcfg.nodes[n].stmt.targets[0].id in [norm(a) for a in vcfg.nodes[n].stmt.value.args]]
+            if proxies:
+                # the running low-link kept in a local and stored back later: whether that is the same algorithm depends on nobody
+                # reading the table entry of an active vertex in between, which this rule does not establish
+                raise AnalysisError(f"C19-D2: {vf.loc(proxies[0])} the low-link of {v} is accumulated in the local `{proxies[0].targets[0].id}` instead of the table; idiom not recognised")
         bad = []
         for visited in (False, True):
             for onstack in (False, True):
